@@ -56,6 +56,13 @@ SeedSet(eng) ==
                {LimbsOfBits(Inv(eng, ones), 16), LimbsOfBits(Inv(eng, Inv(eng, ones)), 16), LimbsOfBits(Inv(eng, one), 16)}
           ELSE {})
 WideEngines == {"xs32", "xs64", "xop", "xopp", "xoss"}
+P32(p) == LimbsOfBits(Pattern(32, p), 16)
+XoStates == {P32("ones") \o P32("ones") \o P32("ones") \o P32("ones"),
+             P32("alt5") \o P32("zero") \o P32("alt5") \o P32("altA"),
+             P32("low") \o P32("two") \o P32("top") \o P32("ones"),
+             P32("zero") \o P32("zero") \o P32("zero") \o P32("top"),
+             P32("ones") \o P32("low") \o P32("top") \o P32("alt5"),
+             P32("def") \o P32("zero") \o P32("def") \o P32("zero")}
 
 \* ---- laws ------------------------------------------------------------------------------------------------------
 OrbitLaws ==
@@ -159,6 +166,10 @@ ASSUME KnownAnswers ==
 EmitInv ==
     CASE mode = "orbit" -> PrintT(<<"GEN", ToJson([m |-> "xs16", seed |-> <<a>>])>>)
       [] mode = "seeds" -> /\ \A e \in WideEngines : \A sd \in SeedSet(e) : PrintT(<<"GEN", ToJson([m |-> e, seed |-> sd])>>)
+                           \* whole xoshiro states (the driver writes them into the engine's object representation; the
+                           \* constructor only reaches {seed,0,0,0}): every word at a boundary, a state whose next two "**"
+                           \* outputs are 0 (s1 = 0 and s0 = s2), a state whose next "+" output is 0 (s3 = -s0 = all-ones, s0 = 1)
+                           /\ \A st \in XoStates : PrintT(<<"GEN", ToJson([m |-> "state", seed |-> st])>>)
                            \* closed ranges [lo, lo + width] for uniform_int_distribution (precondition a <= b: width >= 0)
                            /\ \A lo \in (-2)..2 : \A width \in 0..7 :
                                  PrintT(<<"GEN", ToJson([m |-> "uid", a |-> lo, b |-> lo + width])>>)
